@@ -153,6 +153,24 @@ Definition wal_read (content : list entry) (after : N) : replay_res :=
            if (length content <? skip)%nat then REof else ROk (skipn skip content)
   end.
 
+(* wal.Reader.All when ONE storage read of the replay fails with an error that is not end-of-file. The reads of a replay are
+   numbered 0,1,2,...: [skip_reads] of them happen before the first returned entry (first sequence number, skipped entries), then
+   per entry: sequence number, key (length, bytes), tombstone and - unless deleted - value (length, bytes); the last read is the
+   sequence-number read that meets end-of-file. The reader hands EVERY failed read to its caller (DB.Start returns it, Open does
+   not return a database); only io.EOF at a sequence-number read ends the log. [REof] stands for "an error was returned". *)
+Definition entry_reads (e : entry) : nat := if e_del e then 4%nat else 6%nat.
+Fixpoint read_entries (es : list entry) (pos k : nat) : replay_res :=
+  match es with
+  | [] => if Nat.eqb pos k then REof else ROk []
+  | e :: es' => if (Nat.leb pos k && Nat.ltb k (pos + entry_reads e))%bool then REof
+                else match read_entries es' (pos + entry_reads e) k with ROk l => ROk (e :: l) | r => r end
+  end.
+Definition wal_read_fault (content : list entry) (after : N) (skip_reads k : nat) : replay_res :=
+  match wal_read content after with
+  | ROk es => if Nat.ltb k skip_reads then REof else read_entries es skip_reads k
+  | r => r
+  end.
+
 (* DB.Start on a loaded checkpoint: level set of the document, seqNum := its LatestSeqNum, new WAL id, replay of owned entries *)
 Definition db_replay (o : own) (d : dbc) (es : list entry) : dbc * nat :=
   fold_left (fun (acc : dbc * nat) e =>
